@@ -478,7 +478,8 @@ func detHandle(req string) string {
 
 	// the schedule
 	outcome := ""
-	const patience = 2 * time.Second
+	// generous: a healthy goroutine reaches its next point in microseconds; the machine may be busy
+	const patience = 30 * time.Second
 	for idx := range entries {
 		e := entries[idx]
 		if e.label == "-" || e.gone {
@@ -573,13 +574,14 @@ func detHandle(req string) string {
 		// give the real code the chance to finish by itself, then take the connection away
 		select {
 		case <-fin:
-		case <-time.After(500 * time.Millisecond):
+		case <-time.After(2 * time.Second):
 			srv.Close()
 		}
 	}
+	// what has not returned by now (nothing is holding it back any more) never will
 	select {
 	case <-fin:
-	case <-time.After(3 * time.Second):
+	case <-time.After(patience):
 	}
 	resMu.Lock()
 	defer resMu.Unlock()
